@@ -179,7 +179,7 @@ class _ModeMixin:
 
     @classmethod
     def from_dict(cls, d):
-        return cls(**d)
+        return cls(**{k: v for k, v in d.items() if k in ("mode", "k", "two_way", "perm")})
 
     def __repr__(self):
         return f"{type(self).__name__}({self.mode!r})"
@@ -327,7 +327,7 @@ class Swap(SymmetryStrategy):
 
     @classmethod
     def from_dict(cls, d):
-        return cls(**d)
+        return cls()
 
     def __repr__(self):
         return "Swap()"
